@@ -286,13 +286,15 @@ def rule_frame(ctx, F):
            "the datagram server must send as_dgram_slice() (found dgram writes: %d, stream-form writes: %d)" % (len(dwrites), len(swrong)))
 
 
-PARSE_ERR = re.compile(r"(base::wire::ParseError|octseq::(parse::)?ShortInput|base::wire::FormError|ShortMessage)")
+PARSE_ERR = re.compile(r"(base::wire::ParseError|octseq::(parse::)?ShortInput|base::wire::FormError|ShortMessage|CopyRecordsError|tsig::TsigError)")
 # the files the property is anchored in
-SCOPE_FILES = re.compile(r"^src/net/server/(dgram|stream|connection|message|service|util)\.rs$|"
-                         r"^src/net/server/middleware/(mandatory|edns|cookies|stream)\.rs$")
+SCOPE_FILES = re.compile(r"^src/net/server/")   # the transports and every middleware layered on them
 WIRE = re.compile(r"(Message::<.*>::(qtype|first_question|sole_question|opt|opcode|rcode|question)$|Header::(opcode|rcode|qr|tc|id)$|"
                   r"HeaderCounts::\w+count$|OptRecord::<.*>::\w+$|Parser::<.*>::parse_\w+$)")
 AUDIT = {
+    ("net::server::middleware::xfr::responder::BatchingRrResponder::<RequestOctets, Target>::run::{closure#0}", "sole_question"):
+        "BatchingRrResponder is created only by XfrMiddlewareSvc::preprocess (two call sites) after get_relevant_question() "
+        "returned Some, which it does only for msg.sole_question() == Ok(AXFR|IXFR question); the responder keeps that message",
 }
 
 
